@@ -15,7 +15,7 @@ PROPS = {
  "C01": {"level": "other", "lean_module": "ClipVerif.Props.C01", "stages": [WIND, GEN, MOD, S("c01-search")]},
  "C02": {"level": "other", "lean_module": "ClipVerif.Props.C02", "stages": [WIND, GEN, MOD, S("c02-search")]},
  "C03": {"level": "other", "lean_module": "ClipVerif.Props.C03", "stages": [MOD, S("c03-search")]},
- "C04": {"level": "other", "lean_module": "ClipVerif.Props.C04", "stages": [GEN, MOD, S("c04-search")]},
+ "C04": {"level": "other", "lean_module": "ClipVerif.Props.C04", "stages": [GEN, MOD, S("c04-search", pinned_corpus=True)]},
  "C05": {"level": "other", "lean_module": "ClipVerif.Props.C05", "stages": [MOD, S("c05-search")]},
  "C06": {"level": "other", "lean_module": "ClipVerif.Props.C06", "stages": [GEN, MOD, S("c06-search")]},
  "C07": {"level": "other", "lean_module": "ClipVerif.Props.C07", "stages": [GEN, S("c07-search")]},
